@@ -258,7 +258,7 @@ struct World {
 };
 unsigned World::nsys = 0;
 
-struct Counters { uint64_t nontrivial, refused, limit, replaced, shared_op, destroyed, nonclonable, cleared, spurious, drained, refused_shared, traits_mismatch, reply_checked, group_items, quiescent, container_copies, next_handles, config_added, config_refused; };
+struct Counters { uint64_t nontrivial, refused, limit, replaced, shared_op, destroyed, nonclonable, cleared, spurious, drained, refused_shared, traits_mismatch, reply_checked, group_items, quiescent, container_copies, next_handles, config_added, config_refused, content_accepted, content_refused; };
 static Counters C;   // only the last operation of a transition counts: the BFS restores the snapshot after replaying a prefix
 
 // ---------------------------------------------------------------- job configuration
@@ -745,6 +745,38 @@ struct MetaSys : World {
 				*(uintptr_t *) blk = 1;
 				LIB(mpt::mpt_array_clone(A(&a), 0));
 				if (ledger_is_live(blk)) { fail("leak", "buffer of the refused creation is still allocated"); return -1; }
+				return -2;
+			}
+			if (pre >= 5) {
+				// creation over every content layout of the table (raw / character / typed content, complete, unterminated and partial
+				// trailing segments): whether the creation is accepted or refused, afterwards the array handle must be the only
+				// owner again and the buffer is destroyed with it (probe on a throw-away buffer, nothing is kept)
+				static const struct { int tk; const char *data; size_t used; } lay[] = {
+					{ 0, "abcdef\0\0", 6 }, { 0, "ab\0cd\0\0\0", 5 }, { 0, "ab\0\0\0\0\0\0", 3 }, { 0, "\0\0\0\0\0\0\0\0", 0 },
+					{ 1, "ab\0cd\0\0\0", 6 }, { 1, "ab\0cd\0\0\0", 5 }, { 1, "abcdef\0\0", 6 },
+					{ 2, "\0\0\0\0\0\0\0\0", 4 }, { 2, "\0\0\0\0\0\0\0\0", 6 }, { 2, "\0\0\0\0\0\0\0\0", 8 }, { 2, "\0\0\0\0\0\0\0\0", 2 },
+					{ 3, "\0\0\0\0\0\0\0\0", 8 }, { 3, "\0\0\0\0\0\0\0\0", 4 } };
+				const void *blk = objs[bo].block;
+				objs.pop_back();
+				nontrivial = true;
+				for (size_t li = 0; li < sizeof(lay) / sizeof(*lay); ++li) {
+					if (li) { a._buf = LIB(mpt::_mpt_buffer_alloc(8, 0)); if (!a._buf) return -1; blk = find_block(a._buf); }
+					memcpy(a._buf + 1, lay[li].data, 8); a._buf->_used = lay[li].used;
+					a._buf->_content_traits = lay[li].tk == 1 ? mpt::mpt_type_traits('c') : (lay[li].tk == 2 ? &traitsB : (lay[li].tk == 3 ? &traitsA : 0));
+					mt = LIB(mpt::mpt_meta_arguments(A(&a)));
+					char where[96]; snprintf(where, sizeof(where), "content layout %d (traits %d, %d bytes used)", (int) li, lay[li].tk, (int) lay[li].used);
+					if (mt) {
+						++C.content_accepted;
+						if (!(a._buf->get_flags() & mpt::BufferShared)) { fail("not-shared", std::string("mpt_meta_arguments returned a metatype that holds no reference to the array's buffer, ") + where); return -1; }
+						LIB((mt->unref(), 0));
+					} else { ++C.content_refused; ++C.refused; }
+					if (asan_bad()) { fail("asan", std::string("memory error creating/dropping a metatype over ") + where); return -1; }
+					if (!ledger_is_live(blk)) { fail("early-free", std::string("array's buffer destroyed while the array still holds it, ") + where); return -1; }
+					if ((a._buf->get_flags() & mpt::BufferShared) || (blk && *(const uintptr_t *) blk != 1)) {
+						fail("leak", std::string(mt ? "dropped" : "refused") + " mpt_meta_arguments creation keeps a reference to the array's buffer (still shared), " + where); return -1; }
+					LIB(mpt::mpt_array_clone(A(&a), 0));
+					if (ledger_is_live(blk)) { fail("leak", std::string("buffer not destroyed with its last handle after a ") + (mt ? "dropped" : "refused") + " creation, " + where); return -1; }
+				}
 				return -2;
 			}
 			size_t bytes = ledger_live_bytes();
@@ -1534,6 +1566,7 @@ static bool configure(const std::string &job, Tier tier)
 		// the kinds counted through the C++ refcount wrappers also start at 2^32+1
 		// a text metatype over a shared buffer whose counter is at its limit (after / before the metatype takes its reference)
 		if (kind == K_METABUF || kind == K_IOBUF) { add_ops(o, M_NEW, S, 0, 3); for (size_t i = o.size() - S; i < o.size(); ++i) o[i].b = kind; }
+		if (kind == K_METABUF) { add_ops(o, M_NEW, S, 0, 5); for (size_t i = o.size() - S; i < o.size(); ++i) o[i].b = kind; }
 		if (kind == K_METABUF) { add_ops(o, M_NEW, S, 0, 4); for (size_t i = o.size() - S; i < o.size(); ++i) o[i].b = kind; }
 		if ((kind == K_CXX || kind == K_GENI || kind == K_IOBUF) && k != "mixed") { add_ops(o, M_NEW, S, 0, 2); for (size_t i = o.size() - S; i < o.size(); ++i) o[i].b = kind; } }
 	if (cfg.conv) { add_ops(o, M_CONVREF, S, S); add_ops(o, M_CONVPTR, S, S); add_ops(o, M_CONVNULL, S, 0); }
@@ -1564,7 +1597,7 @@ static void flush_counters(Run &r)
 {
 	r.count("nontrivial", C.nontrivial); r.count("refused", C.refused); r.count("at_counter_limit", C.limit); r.count("held_reference_replaced", C.replaced);
 	r.count("op_on_shared_object", C.shared_op); r.count("transitions_with_destroyed_object", C.destroyed); r.count("clone_of_nonclonable", C.nonclonable);
-	r.count("cxx_assign_unretainable_clears_target(not flagged)", C.cleared); r.count("spurious_refusals(not flagged)", C.spurious); r.count("states_drained_to_quiescence", C.drained); r.count("refused_write_on_shared_buffer", C.refused_shared); r.count("clone_between_different_content_traits", C.traits_mismatch); r.count("replies_through_held_context_checked", C.reply_checked); r.count("group_items_taken", C.group_items); r.count("drained_states_with_no_block_left", C.quiescent); r.count("container_copies(group clone, reference_array copy)", C.container_copies); r.count("notify_next_handles_checked", C.next_handles); r.count("notify_config_registered", C.config_added); r.count("notify_config_refused", C.config_refused);
+	r.count("cxx_assign_unretainable_clears_target(not flagged)", C.cleared); r.count("spurious_refusals(not flagged)", C.spurious); r.count("states_drained_to_quiescence", C.drained); r.count("refused_write_on_shared_buffer", C.refused_shared); r.count("clone_between_different_content_traits", C.traits_mismatch); r.count("replies_through_held_context_checked", C.reply_checked); r.count("group_items_taken", C.group_items); r.count("drained_states_with_no_block_left", C.quiescent); r.count("container_copies(group clone, reference_array copy)", C.container_copies); r.count("notify_next_handles_checked", C.next_handles); r.count("notify_config_registered", C.config_added); r.count("notify_config_refused", C.config_refused); r.count("metabuffer_creation_accepted_on_content_layout", C.content_accepted); r.count("metabuffer_creation_refused_after_reference_taken(content layout)", C.content_refused);
 	r.count("alloc_dealloc_mismatch_reports(out of scope, not flagged)", g_mismatch);
 }
 
@@ -1579,7 +1612,7 @@ void mc_explore(Run &r, const std::string &job)
 		return;
 	}
 	if (!configure(job, r.tier)) { r.incomplete("unknown job " + job); return; }
-	for (const char *k : {"held_reference_replaced", "at_counter_limit", "refused", "transitions_with_destroyed_object", "states_drained_to_quiescence", "op_on_shared_object", "clone_of_nonclonable", "replies_through_held_context_checked", "group_items_taken", "drained_states_with_no_block_left", "container_copies(group clone, reference_array copy)", "notify_next_handles_checked", "notify_config_registered", "notify_config_refused"}) r.require(k);
+	for (const char *k : {"held_reference_replaced", "at_counter_limit", "refused", "transitions_with_destroyed_object", "states_drained_to_quiescence", "op_on_shared_object", "clone_of_nonclonable", "replies_through_held_context_checked", "group_items_taken", "drained_states_with_no_block_left", "container_copies(group clone, reference_array copy)", "notify_next_handles_checked", "notify_config_registered", "notify_config_refused", "metabuffer_creation_accepted_on_content_layout", "metabuffer_creation_refused_after_reference_taken(content layout)"}) r.require(k);
 	if (job.compare(0, 6, "buffer") == 0) { r.require("refused_write_on_shared_buffer"); if (job != "buffer") r.require("clone_between_different_content_traits"); explore<BufSys>(r, cfg.depth); } else explore<MetaSys>(r, cfg.depth);
 	flush_counters(r);
 }
